@@ -14,3 +14,12 @@ package models
 //@ props C02
 //@ ensures.zero[C02] result != nil && fresh(result) && result.Checkpoint != nil && result.Checkpoint.Snapshot != nil && result.Checkpoint.VbUUID == 0 && result.Checkpoint.SeqNo == 0 && result.Checkpoint.Snapshot.StartSeqNo == 0 && result.Checkpoint.Snapshot.EndSeqNo == 0 && result.BucketUUID == bucketUUID
 //@ modifies nothing
+
+// Assumed contract on user code: while consuming an event the consumer can
+// reach library state only through the Ack / Commit closures of listener
+// contexts. The stream-level effects of that are stated as the rely AckStar
+// in the lemmas; at the call site only the frame is needed.
+//@ iface models.Consumer.ConsumeEvent
+//@ params recv ctx
+//@ requires ctx != nil
+//@ modifies content(captured(ctx.Ack, "stream.(*stream).waitAndForward$1", "s").offsets), content(captured(ctx.Ack, "stream.(*stream).waitAndForward$1", "s").dirtyOffsets), captured(ctx.Ack, "stream.(*stream).waitAndForward$1", "s").anyDirtyOffset, calls(models.Consumer.TrackOffset), calls("stream.(*stream).setOffset")
